@@ -16,9 +16,19 @@ A heap is a finite map from object ids to objects `(refcount, destroy hook set?,
 slots, internal pointers ("views") into buffers, references to other objects)` and from buffer ids to buffers.
 A hook is described by a `CopyDesc` (what the hook does with the header, with every buffer slot, every
 internal pointer and every reference slot, in source order, and what its failure path releases).
-`desc` is the description of the **repaired** hooks (fixes/C19-*.patch), `descCurrent` the description of the
-hooks as they are in the pinned tree; both are compared with the behavioural probe of `harness/h_c19.c` on every
-run (`sqfsmodel c19 describe[-current] <kind>`).
+`desc` is the description of the hooks **as they are in /repo** (since the `fix:` commits 581be1a … 3353bb2 these are
+the repaired hooks of fixes/C19-*.patch), `descCurrent` the description of the hooks before those commits (kept for the
+witness theorems and so that a reverted fix is recognised); `desc` is compared with the behavioural probe of
+`harness/h_c19.c` on every run, slot by slot (`sqfsmodel c19 describe <kind>` against the facts the probe saw, and the
+probe line of every fresh copy against `sqfsmodel c19 sim`).
+
+Every kind's last buffer slot stands for **the struct's own plain fields** (everything in the struct that is neither the
+object header nor a pointer: cache tags and sizes of the data reader, cursor and the inline 8 KiB block of the meta
+reader, the options of a compressor, `super`/`flags` of the dir reader …).  A hook that `memcpy`s the struct or assigns the
+fields one by one duplicates that slot (`dup`); one that forgets or resets a field `garble`s it.  The allocation of this
+slot is the allocation of the struct (the model counts the header part and the field part as two steps; a failure of
+either returns NULL after the same clean-up).  gzip and zstd own one more resource, the codec state (`z_stream` internals
+made by `deflateInit2`/`inflateInit`, the `ZSTD_CCtx`), which their hooks create afresh for the copy and which can fail.
 
 Crash states are explicit: calling a NULL hook, touching a freed object or buffer, freeing twice, indexing past
 the allocated size of a buffer.  A crashed heap is absorbing.
@@ -208,7 +218,8 @@ structure CopyDesc where
   bufs : List BufAct          -- one per buffer slot
   views : List (ViewAct × Nat) -- per internal pointer: action and the buffer slot it points into
   refs : List RefAct          -- one per reference slot
-  refsFirst : Bool            -- deep copies happen before the buffers are duplicated (only matters for which allocation fails)
+  refsFirst : Bool            -- deep copies happen before the buffers are duplicated: only decides which model step an injected
+                              -- failure hits — no observable consequence, not compared with the code
   capAware : Bool             -- the kind records the allocated size next to the pointer and honours it (`array_t.count`)
   onFail : FailAct
   deriving DecidableEq, Repr
@@ -223,24 +234,27 @@ def WfDesc (d : CopyDesc) : Prop :=
 
 instance (d : CopyDesc) : Decidable (WfDesc d) := by unfold WfDesc; infer_instance
 
-/-- The hooks with the repairs of `fixes/C19-*.patch` applied. -/
+/-- The hooks as they are in /repo (the last buffer slot of every kind but the two tables = the struct's plain fields). -/
 def desc : Kind → CopyDesc
-  | .gzip | .xz | .lzma | .lz4 | .zstd => ⟨.memcpy, [], [], [], false, true, .unwind⟩
-  | .file => ⟨.memcpy, [.dup], [], [], false, true, .unwind⟩                         -- slot 0 = the descriptor (`dup`)
+  | .xz | .lzma | .lz4 => ⟨.memcpy, [.dup], [], [], false, true, .unwind⟩             -- malloc + memcpy: the fields
+  | .gzip | .zstd => ⟨.memcpy, [.dup, .dup], [], [], false, true, .unwind⟩            -- codec state (deflateInit2/inflateInit from
+                                                                                     -- `opt`, ZSTD_createCCtx; failure → free, NULL); fields
+  | .file => ⟨.memcpy, [.dup, .dup], [], [], false, true, .unwind⟩                   -- slot 0 = the descriptor (`dup()`); readonly/size/name
   | .fragTable | .idTable => ⟨.init, [.trim], [], [], false, true, .unwind⟩          -- array_init_copy: capacity := used
-  | .metaReader => ⟨.memcpy, [], [], [.grab, .grab], false, true, .unwind⟩            -- file, cmp
-  | .dirReader => ⟨.memcpy, [.dup], [], [.deep, .deep], false, true, .unwind⟩         -- dcache nodes; meta_inode, meta_dir
-  | .dataReader => ⟨.memcpy, [.dup, .dup], [], [.deep, .grab, .grab], true, false, .unwind⟩   -- data_block, frag_block; frag_tbl, file, cmp
-  | .xattrReader => ⟨.memcpy, [.dup], [], [.deep, .deep], true, true, .unwind⟩        -- id_block_starts; kvrd, idrd
+  | .metaReader => ⟨.memcpy, [.dup], [], [.grab, .grab], false, true, .unwind⟩        -- start … offset, data[]; file, cmp
+  | .dirReader => ⟨.memcpy, [.dup, .dup], [], [.deep, .deep], false, true, .unwind⟩   -- dcache nodes, super/flags; meta_inode, meta_dir
+  | .dataReader => ⟨.memcpy, [.dup, .dup, .dup], [], [.deep, .grab, .grab], true, false, .unwind⟩
+      -- data_block, frag_block, (tags, *_blk_size, block_size); frag_tbl, file, cmp
+  | .xattrReader => ⟨.memcpy, [.dup, .dup], [], [.deep, .deep], true, true, .unwind⟩  -- id_block_starts, counters; kvrd, idrd
   | .xattrWriter => ⟨.memcpy, [.trim, .trim, .trim, .dup, .dup], [(.repoint, 3), (.repoint, 3), (.repoint, 4)], [], false, true, .unwind⟩
       -- key bucket array, value bucket array, pair array, block tree, the struct's own fields (reached through
       -- `kv_block_tree.key_context`); kv_block_first, kv_block_last, tree.key_context
 
-/-- The hooks as they are in the pinned tree (D6, D7, D23 and the data reader's buffer size). -/
+/-- The hooks as they were before the `fix:` commits (D6, D7, D23 and the data reader's buffer size). -/
 def descCurrent : Kind → CopyDesc
   | .fragTable | .idTable => ⟨.zeroed, [.trim], [], [], false, true, .unwind⟩
-  | .dataReader => ⟨.memcpy, [.trim, .trim], [], [.deep, .grab, .grab], true, false, .unwind⟩
-  | .xattrReader => ⟨.memcpy, [.dup], [], [.deep, .deep], true, true, .dropSlots⟩
+  | .dataReader => ⟨.memcpy, [.trim, .trim, .dup], [], [.deep, .grab, .grab], true, false, .unwind⟩
+  | .xattrReader => ⟨.memcpy, [.dup, .dup], [], [.deep, .deep], true, true, .dropSlots⟩
   | .xattrWriter => ⟨.memcpy, [.trim, .trim, .trim, .dup, .dup], [(.stale, 3), (.repoint, 3), (.stale, 4)], [], false, true, .freeAliased [0, 1]⟩
   | k => desc k
 
@@ -382,25 +396,40 @@ def newObj (h : Heap) (k : Kind) (bufs views refs : List (Option Nat)) : Heap ×
 def newBuf (h : Heap) (b : Buf) : Heap × Nat :=
   ({ h with bufs := upd h.bufs h.nbuf (some b), nbuf := h.nbuf + 1 }, h.nbuf)
 
+/-- the struct's plain fields as the constructor leaves them -/
+def fieldsBuf : Buf := ⟨1, 1, 0⟩
+
 /-- `sqfs_meta_reader_create(file, cmp, …)` -/
 def newMetaReader (h : Heap) (file cmp : Nat) : Heap × Nat :=
-  newObj (grab (grab h file) cmp) .metaReader [] [] [some file, some cmp]
+  let (h, fb) := newBuf (grab (grab h file) cmp) fieldsBuf
+  newObj h .metaReader [some fb] [] [some file, some cmp]
 
 /-- the object as its constructor leaves it (no cached buffers yet); `file`/`cmp` are ignored by kinds without references -/
 def construct (h : Heap) (k : Kind) (file cmp : Nat) : Heap × Nat :=
   match k with
-  | .gzip | .xz | .lzma | .lz4 | .zstd => newObj h k [] [] []
-  | .file => let (h, fd) := newBuf h ⟨1, 1, 0⟩; newObj h k [some fd] [] []
+  | .xz | .lzma | .lz4 => let (h, fb) := newBuf h fieldsBuf; newObj h k [some fb] [] []
+  | .gzip | .zstd =>
+    let (h, st) := newBuf h ⟨1, 1, 0⟩                          -- deflateInit2 / inflateInit / ZSTD_createCCtx
+    let (h, fb) := newBuf h fieldsBuf
+    newObj h k [some st, some fb] [] []
+  | .file =>
+    let (h, fd) := newBuf h ⟨1, 1, 0⟩
+    let (h, fb) := newBuf h fieldsBuf
+    newObj h k [some fd, some fb] [] []
   | .fragTable | .idTable => newObj h k [none] [] []
   | .metaReader => newMetaReader h file cmp
   | .dirReader =>
     let (h, mi) := newMetaReader h file cmp
     let (h, md) := newMetaReader h file cmp
-    newObj h k [none] [] [some mi, some md]
+    let (h, fb) := newBuf h fieldsBuf
+    newObj h k [none, some fb] [] [some mi, some md]
   | .dataReader =>
     let (h, ft) := newObj h .fragTable [none] [] []
-    newObj (grab (grab h file) cmp) k [none, none] [] [some ft, some file, some cmp]
-  | .xattrReader => newObj h k [none] [] [none, none]         -- `sqfs_xattr_reader_create`; `load` fills the slots
+    let (h, fb) := newBuf (grab (grab h file) cmp) fieldsBuf
+    newObj h k [none, none, some fb] [] [some ft, some file, some cmp]
+  | .xattrReader =>
+    let (h, fb) := newBuf h fieldsBuf
+    newObj h k [none, some fb] [] [none, none]                -- `sqfs_xattr_reader_create`; `load` fills the slots
   | .xattrWriter =>
     let (h, pairs) := newBuf h ⟨8, 0, 0⟩                       -- array_init(&kv_pairs, 8, XATTR_INITIAL_PAIR_CAP)
     let (h, self) := newBuf h ⟨1, 1, 0⟩                        -- the struct's own fields as seen through key_context
@@ -457,5 +486,88 @@ def slotVal (h : Heap) : Option Nat → Option Nat
 /-- what an object can observe of its own buffers: the contents of every slot and of every internal pointer -/
 def view (h : Heap) (id : Nat) : Option (List (Option Nat)) :=
   (h.objs id).map fun o => (o.bufs ++ o.views).map (slotVal h)
+
+
+/-! ### operations that reshape an object's own buffers, and histories that mix operations, grabs and releases
+
+What an operation of a kind can do to memory, seen from the heap: store through an own pointer (`writeSlot`), replace
+an own buffer by a fresh one (`reallocSlot`: `array_append` growing by `realloc`, `precache_data_block` = `free` +
+`get_block`, a first block entering an empty cache), give an own buffer back (`releaseSlot`:
+`sqfs_data_reader_load_fragment_table` dropping the cached fragment block, `array_cleanup`). Allocation failure inside an
+operation is not modelled (the operation fails and leaves the object as it was). -/
+
+/-- pointer fix-up after a buffer moved or went away -/
+def rep (old : Nat) (new : Option Nat) (s : Option Nat) : Option Nat := if s = some old then new else s
+
+/-- buffer slot `slot` of object `id` gets a fresh buffer `bf`; the buffer it held (if any) is freed after the move and the
+internal pointers into it follow (`malloc`, copy, `free` — what `realloc` may do) -/
+def reallocSlot (h : Heap) (id slot : Nat) (bf : Buf) : Heap :=
+  match h.crash with
+  | some _ => h
+  | none =>
+    match h.objs id with
+    | none => h.fail .useAfterFree
+    | some o =>
+      if slot < o.bufs.length then
+        let h1 : Heap := { h with bufs := upd h.bufs h.nbuf (some bf), nbuf := h.nbuf + 1 }
+        match listGet o.bufs slot with
+        | none => { h1 with objs := upd h1.objs id (some { o with bufs := o.bufs.set slot (some h.nbuf) }) }
+        | some old =>
+          freeBuf { h1 with objs := upd h1.objs id (some { o with bufs := o.bufs.map (rep old (some h.nbuf)),
+                                                                  views := o.views.map (rep old (some h.nbuf)) }) } old
+      else h
+
+/-- buffer slot `slot` of object `id` is freed and set to NULL, together with the internal pointers into it -/
+def releaseSlot (h : Heap) (id slot : Nat) : Heap :=
+  match h.crash with
+  | some _ => h
+  | none =>
+    match h.objs id with
+    | none => h.fail .useAfterFree
+    | some o =>
+      match listGet o.bufs slot with
+      | none => h
+      | some old =>
+        freeBuf { h with objs := upd h.objs id (some { o with bufs := o.bufs.map (rep old none), views := o.views.map (rep old none) }) } old
+
+inductive SlotOp where
+  | store (slot v : Nat)
+  | realloc (slot : Nat) (bf : Buf)
+  | release (slot : Nat)
+  deriving DecidableEq, Repr
+
+def applyOp (h : Heap) (x : Nat) : SlotOp → Heap
+  | .store s v => writeSlot h x s v
+  | .realloc s bf => reallocSlot h x s bf
+  | .release s => releaseSlot h x s
+
+/-- what the user of the library does with the objects it holds -/
+inductive Ev where
+  | op (x : Nat) (w : SlotOp)      -- an operation on object `x`
+  | grab (x : Nat)                 -- `sqfs_grab(x)`
+  | drop (x : Nat)                 -- `sqfs_drop(x)`
+  deriving DecidableEq, Repr
+
+def Ev.target : Ev → Nat
+  | .op x _ => x | .grab x => x | .drop x => x
+
+def Ev.apply (h : Heap) : Ev → Heap
+  | .op x w => applyOp h x w
+  | .grab x => Sqfs.Obj.grab h x
+  | .drop x => sqfsDrop h x
+
+/-- the references the user holds after the event -/
+def Ev.user (U : Nat → Nat) : Ev → Nat → Nat
+  | .op _ _ => U
+  | .grab x => fun y => if y = x then U x + 1 else U y
+  | .drop x => fun y => if y = x then U x - 1 else U y
+
+/-- the user only touches objects it holds a reference to at that moment -/
+def Admissible : (Nat → Nat) → List Ev → Prop
+  | _, [] => True
+  | U, e :: es => 1 ≤ U e.target ∧ Admissible (e.user U) es
+
+def runEvs (h : Heap) (es : List Ev) : Heap := es.foldl Ev.apply h
+def userAfter (U : Nat → Nat) (es : List Ev) : Nat → Nat := es.foldl Ev.user U
 
 end Sqfs.Obj
